@@ -337,6 +337,7 @@ time_t handle_timeout(struct handler *handler, struct trace *trace) {
       struct store_path *store_path =
           create_store_path(get_project_store_root(handler->config),
                             project_name, version, trace);
+      free(version);
       struct buffer *unstable_path = create_buffer(trace);
       concat_string(get_unstable_project_store_root(handler->config),
                     unstable_path, trace);
@@ -458,6 +459,7 @@ time_t handle_timeout(struct handler *handler, struct trace *trace) {
       TNEG(link(get_current_path(store_path),
                 get_string(get_view(project_path))),
            trace);
+      free_buffer(project_path);
     }
 
     record_event(event, 0, relative_path, handler, trace);
